@@ -308,6 +308,11 @@ def alias_mutate(a, b):
         a.append(1)
         return len(b)
     return 0
+def open(path):
+    """the student's own function that happens to carry the name of a builtin the sandbox mocks"""
+    return ['opened', path]
+def shadowing(a):
+    return open(a)
 '''
 
 
